@@ -76,3 +76,51 @@ def bodyOps (inner : List α) (x : α) : List (PosOp α) :=
   [PosOp.push inner] ++ inner.map PosOp.position ++ [PosOp.pop, PosOp.position x, PosOp.last]
 
 end XalanModel.C16
+
+namespace XalanModel.C16
+/-! ### the context a sort key is evaluated in
+NodeSorter.cpp `getResult` (231-262, 375-400) evaluates key k for entry `(node, position)` by
+`theXPath->execute(theNode, thePrefixResolver, theExecutionContext, theResult)` — the overload family
+`execute(context, prefixResolver, executionContext, out)` with `out : double&` for data-type="number" and
+`out : XalanDOMString&` for text.  That overload declares `CurrentNodePushAndPop(executionContext, context)`: the
+node being sorted becomes the CURRENT node (what `current()` returns) as well as the context node.  Around the whole
+sort, `sortChildren` has pushed the selected (unsorted) list as context node list (`ContextNodeListPushAndPop`), so
+`position()` / `last()` inside a key are the node's place in, and the size of, the unsorted list (XSLT 1.0 §10). -/
+
+/-- what an expression can observe of its dynamic context -/
+structure KeyCtx (α : Type) where
+  current : α
+  context : α
+  position : Nat
+  size : Nat
+deriving DecidableEq, Repr
+
+/-- the relevant part of the XPath execution context: `m_currentNodeStack` (top first) and the context-list stack -/
+structure XCtx (α : Type) where
+  currentStack : List α
+  lists : PosCtx α
+
+variable {α : Type} [DecidableEq α]
+
+/-- `XPath::execute(context = node, resolver, executionContext, out)` as written: push `node` as current node, evaluate
+(the expression observes the returned `KeyCtx`; position() goes through the position cache), pop -/
+def evalKeyAt (st : XCtx α) (node : α) : KeyCtx α × XCtx α :=
+  let pushed := node :: st.currentStack                                  -- CurrentNodePushAndPop
+  let r := posStep st.lists (PosOp.position node)
+  (⟨pushed.headD node, node, r.2, st.lists.top.length⟩, { st with lists := r.1 })   -- … and popped again
+
+/-- the same overload WITHOUT `CurrentNodePushAndPop` (not the code): `current()` is whatever the caller's current node is -/
+def evalKeyAtNoPush (st : XCtx α) (node : α) : KeyCtx α × XCtx α :=
+  let r := posStep st.lists (PosOp.position node)
+  (⟨st.currentStack.headD node, node, r.2, st.lists.top.length⟩, { st with lists := r.1 })
+
+/-- all key evaluations of one sort, in any order `order` the comparator happens to ask for them: the outer
+instruction's current node is `outer`; `sortChildren` pushes the selected list -/
+def keyContexts (eval : XCtx α → α → KeyCtx α × XCtx α) (outer : α) (selected : List α) : List α → XCtx α → List (KeyCtx α)
+  | [], _ => []
+  | x :: rest, st => (eval st x).1 :: keyContexts eval outer selected rest (eval st x).2
+
+def sortStartCtx (outer : α) (below : List (List α)) (selected : List α) : XCtx α :=
+  ⟨[outer], (posStep ⟨below, none⟩ (PosOp.push selected)).1⟩
+
+end XalanModel.C16
